@@ -231,7 +231,7 @@ pub fn gen_c04(tier: &str, seed: u64, out: &str) -> Value {
     for r in 0..=exr {
         for id in all_cells(r) { t.emit(area_event(id)); n += 1; t.cut(); }
     }
-    let per = if tier == "thorough" { 10 } else { 1 };
+    let per = if tier == "thorough" { 40 } else { 6 };
     for r in (exr + 1)..=29 {
         for face in 0..12u8 { for seg in 0..5usize { for k in 0..per {
             let h = r - 1;
@@ -281,8 +281,70 @@ pub fn gen_c03(tier: &str, seed: u64, out: &str) -> Value {
         n_own += 1;
         t.cut();
     }
+    // local edge matching at every resolution: cells on every face x quintant (first, last, pattern and random
+    // positions), cells at special points
+    let mut n_local = 0u64;
+    let per = if tier == "thorough" { 24 } else { 3 };
+    for res in 2..=29 {
+        let h = res - 1;
+        for face in 0..12u8 { for seg in 0..5usize { for k in 0..per {
+            let mask = (1u64 << (2 * h)) - 1;
+            let s = match k { 0 => rng.next() & mask, 1 => if (face as usize + seg) % 2 == 0 { 0 } else { mask }, _ => rng.next() & mask };
+            let id = serialize(&A5Cell { origin_id: face, segment: seg, s, resolution: res }).unwrap();
+            t.emit(localmesh_event(id));
+            n_local += 1;
+        } } t.cut(); }
+        for (i, p) in specials.iter().enumerate() {
+            if tier != "thorough" && (i + res as usize) % 4 != 0 { continue; }
+            if let Ok(id) = a5::lonlat_to_cell(*p, res) { t.emit(localmesh_event(id)); n_local += 1; }
+        }
+        t.cut();
+    }
     t.finish();
-    json!({"files": t.files, "events": t.events, "meshes": meshed, "owner_probes": n_own, "samples": [owners_event(LonLat::new(10.0, 20.0), 9, &mut rng)]})
+    json!({"files": t.files, "events": t.events, "meshes": meshed, "owner_probes": n_own, "local_edge_checks": n_local, "samples": [owners_event(LonLat::new(10.0, 20.0), 9, &mut rng)]})
+}
+
+/// local mesh closure at any resolution: every edge of the cell must be shared, end point for end point, with the
+/// cell found just across it (its twin edge runs the other way round in that neighbour's ring)
+pub fn localmesh_event(id: u64) -> Value {
+    let res = res_of(id);
+    let ring = ring_ll(id, 1, false).unwrap_or_default();
+    let n = ring.len();
+    let centre = a5::cell_to_lonlat(id).ok();
+    let ring2 = ring_ll(id, 2, false).unwrap_or_default();
+    let tol = 1e-6 * cell_size(res);
+    let mut twinned = vec![];
+    let mut nbrs = vec![];
+    if let Some(c) = centre {
+        for i in 0..n {
+            let (a, b) = (ring[i], ring[(i + 1) % n]);
+            // true edge midpoint (ring with 2 segments per edge), pushed outwards by a few per cent of the cell;
+            // several distances, because edges differ in length and the neighbour across a short edge is small
+            let mid = if ring2.len() == 2 * n { ring2[(2 * i + 2) % (2 * n)] } else { towards(a, b, 0.5) };
+            let mut ok = false;
+            let mut nb = None;
+            for push in [0.01, 0.03, 0.08, 0.003] {
+                let out = towards(mid, c, -push);
+                let cand = a5::lonlat_to_cell(out, res).ok();
+                if let Some(y) = cand {
+                    if y == id { continue; }
+                    nb = Some(y);
+                    if let Some(yr) = ring_ll(y, 1, false) {
+                        let m = yr.len();
+                        let (pa, pb) = (p_of(a), p_of(b));
+                        for j in 0..m {
+                            // the neighbour must list b -> a consecutively
+                            if distance(p_of(yr[j]), pb) < tol && distance(p_of(yr[(j + 1) % m]), pa) < tol { ok = true; }
+                        }
+                    }
+                    if ok { break; }
+                }
+            }
+            twinned.push(ok);
+            nbrs.push(nb.unwrap_or(0));
+        }
+    }
+    json!({"op": "localmesh", "id": quads(id), "res": res, "sides": n, "twinned": twinned, "nbrs": quads_list(&nbrs)})
 }
 
 /// candidates: the cells answering lookups of the point and of 12 points pushed around it by up to 1.5 cell sizes
